@@ -63,6 +63,8 @@ type bufComp struct {
 	processed map[hash.Event]bool
 	limit     dag.Metric
 
+	withReleased, withCheck bool
+
 	// EBMID: block inside Process of one event
 	blockOn int
 	entered chan struct{}
@@ -70,11 +72,25 @@ type bufComp struct {
 }
 
 func newBufferWith(evs []evDef, limit dag.Metric) *bufComp {
-	c := &bufComp{evs: evs, byID: map[hash.Event]int{}, processed: map[hash.Event]bool{}, limit: limit, blockOn: -1}
+	return newBufferCfg(evs, limit, true, false)
+}
+
+func newBufferCfg(evs []evDef, limit dag.Metric, withReleased, withCheck bool) *bufComp {
+	c := &bufComp{evs: evs, byID: map[hash.Event]int{}, processed: map[hash.Event]bool{}, limit: limit, blockOn: -1,
+		withReleased: withReleased, withCheck: withCheck}
 	for i, e := range evs {
 		c.byID[e.id] = i
 	}
+	var released func(e dag.Event, peer string, err error)
+	if withReleased {
+		released = func(e dag.Event, peer string, err error) {}
+	}
+	var check func(e dag.Event, parents dag.Events) error
+	if withCheck {
+		check = func(e dag.Event, parents dag.Events) error { return nil }
+	}
 	c.buf = dagordering.New(limit, dagordering.Callback{
+		Check: check,
 		Process: func(e dag.Event) error {
 			if c.blockOn >= 0 && e.ID() == c.evs[c.blockOn].id {
 				close(c.entered)
@@ -85,7 +101,7 @@ func newBufferWith(evs []evDef, limit dag.Metric) *bufComp {
 			c.mu.Unlock()
 			return nil
 		},
-		Released: func(e dag.Event, peer string, err error) {},
+		Released: released,
 		Get: func(id hash.Event) dag.Event {
 			c.mu.Lock()
 			defer c.mu.Unlock()
@@ -103,8 +119,24 @@ func newBufferWith(evs []evDef, limit dag.Metric) *bufComp {
 	return c
 }
 
+// newBuffer: variants by seed — limit.Num 0, 1, 2..4; limit.Size large or 100 (one event); Released callback nil
+// or not; Check callback nil or not
 func newBuffer(seed int64) *bufComp {
-	return newBufferWith(makeDag(seed, 7), dag.Metric{Num: idx.Event(2 + seed%3), Size: 100000})
+	lim := dag.Metric{Num: idx.Event(2 + seed%3), Size: 100000}
+	switch (seed / 3) % 5 {
+	case 1:
+		lim.Num = 0
+	case 2:
+		lim.Num = 1
+	case 3:
+		lim.Size = 100
+	}
+	c := newBufferCfg(makeDag(seed, 7), lim, (seed/15)%2 == 0, (seed/30)%2 == 0)
+	return c
+}
+
+func (c *bufComp) Cfg() string {
+	return fmt.Sprintf("num%d.size%d.rel%d.chk%d", c.limit.Num, c.limit.Size, b2i(c.withReleased), b2i(c.withCheck))
 }
 
 func (c *bufComp) Finish() {}
